@@ -168,6 +168,9 @@ var synOps = []string{"|", "or", "&", "and", "=", "!=", "^=", "~=", ">", ">=", "
 func randSynLeaf(r *rand.Rand) *synNode {
 	switch r.Intn(8) {
 	case 0:
+		if r.Intn(2) == 0 {
+			return &synNode{k: "num", v: []string{"2.0", "0.5", "10.50", "3.25", "100.0"}[r.Intn(5)]}
+		}
 		return &synNode{k: "num", v: fmt.Sprint(r.Intn(100))}
 	case 1:
 		return &synNode{k: "str", v: []string{"x", "a b", "and", "<=", "(q)"}[r.Intn(5)]}
